@@ -36,6 +36,16 @@ pub fn cfg_strategy() -> BoxedStrategy<Cfg> {
         .boxed()
 }
 
+/// `cfg_strategy` plus Go's `uppercase_acronyms` (names are re-cased, JSON keys must not be)
+pub fn cfg_strategy_acr() -> BoxedStrategy<Cfg> {
+    (cfg_strategy(), prop_oneof![3 => Just(vec![]), 1 => Just(vec!["ID".to_string()]), 1 => Just(vec!["URL".to_string(), "ID".to_string(), "HTTP".to_string()])])
+        .prop_map(|(mut c, acr)| {
+            c.go_acronyms = acr;
+            c
+        })
+        .boxed()
+}
+
 pub enum LangResult {
     Observed(String, Observed),
     /// typeshare produced text the observer cannot read
